@@ -36,38 +36,88 @@ def is_container_expr(an, e, f, conds=None):
     return any(k in CONTAINER_KINDS for k in ks)
 
 
+def alias_values(fnode, name):
+    """every value bound to local `name` (plain and tuple assignments); None in the list when a binding is not an assignment"""
+    out = []
+    for n in walk_no_nested(fnode):
+        if isinstance(n, ast.Assign):
+            for t in n.targets:
+                if isinstance(t, ast.Name) and t.id == name:
+                    out.append(n.value)
+                elif isinstance(t, (ast.Tuple, ast.List)):
+                    for i, el in enumerate(t.elts):
+                        if isinstance(el, ast.Name) and el.id == name:
+                            out.append(n.value.elts[i] if isinstance(n.value, (ast.Tuple, ast.List)) and len(n.value.elts) == len(t.elts) else None)
+        elif isinstance(n, (ast.For, ast.AugAssign, ast.With)):
+            tgts = [n.target] if hasattr(n, "target") else [i.optional_vars for i in n.items if i.optional_vars is not None]
+            for t in tgts:
+                if any(isinstance(y, ast.Name) and y.id == name for y in ast.walk(t)):
+                    out.append(None)
+    return out
+
+
 def owner_of_list(e, f):
-    """text of the object owning the child list expression e ('OWNER(<list>)' when unknown)."""
+    """text of the object owning the child list expression e ('OWNER(<list>)' when unknown).
+    A local that is bound only to child lists of one owner (children = self._sections / self._props) is such a list."""
     if isinstance(e, ast.Attribute) and (e.attr in CHILD_FIELDS or e.attr in CHILD_GETTERS):
         return norm_text(e.value), CHILD_GETTERS.get(e.attr, e.attr)
+    if isinstance(e, ast.Name) and f is not None and e.id not in f.params:
+        vals = alias_values(f.node, e.id)
+        if vals and all(isinstance(v, ast.Attribute) and (v.attr in CHILD_FIELDS or v.attr in CHILD_GETTERS) for v in vals):
+            owners = set(norm_text(v.value) for v in vals)
+            lists = set(CHILD_GETTERS.get(v.attr, v.attr) for v in vals)
+            if len(owners) == 1:
+                return owners.pop(), (lists.pop() if len(lists) == 1 else "?")
     return "OWNER(%s)" % unparse(e), "?"
 
 
+def _alias_is_child_list(f, e):
+    if isinstance(e, ast.Name) and f is not None and e.id not in f.params:
+        vals = alias_values(f.node, e.id)
+        return bool(vals) and all(isinstance(v, ast.Attribute) and (v.attr in CHILD_FIELDS or v.attr in CHILD_GETTERS) for v in vals)
+    return False
+
+
 def tree_events(an, f, node, conds=None):
-    """ordered tree events of one CFG node."""
+    """ordered tree events of one CFG node (expressions are read with pure location aliases expanded)."""
     out = []
     in_smartlist = f.cls is not None and f.cls.name == "SmartList"
+    ax = an.alias_expander(f)
+
+    def X(e):
+        if e is None:
+            return None
+        try:
+            return ax.expand(e, node)
+        except Exception:
+            return e
+
+    def NT(e):
+        return norm_text(X(e)) if e is not None and not isinstance(e, str) else norm_text(e)
+
+    def child_list(e):
+        return is_child_list_expr(an, X(e), f, conds) or is_child_list_expr(an, e, f, conds) or _alias_is_child_list(f, e)
     for ev in node_events(node):
         k = ev["kind"]
         a = ev["ast"]
         if k == "store_attr" and a.attr == "_parent":
-            out.append({"kind": "SETP", "obj": norm_text(a.value), "value": norm_text(ev["value"]) if ev.get("value") is not None else "?",
-                        "ast": a, "value_ast": ev.get("value")})
+            out.append({"kind": "SETP", "obj": NT(a.value), "value": NT(ev["value"]) if ev.get("value") is not None else "?",
+                        "ast": a, "value_ast": X(ev.get("value"))})
         elif k == "store_attr" and a.attr == "parent" and is_model_expr(an, a.value, f):
-            out.append({"kind": "API_SETPARENT", "obj": norm_text(a.value), "value": norm_text(ev["value"]), "ast": a,
-                        "value_ast": ev.get("value")})
+            out.append({"kind": "API_SETPARENT", "obj": NT(a.value), "value": NT(ev["value"]), "ast": a,
+                        "value_ast": X(ev.get("value"))})
         elif k == "store_attr" and a.attr in CHILD_FIELDS:
-            out.append({"kind": "REBIND", "owner": norm_text(a.value), "list": a.attr, "ast": a, "value_ast": ev.get("value")})
-        elif k in ("store_sub", "del_sub") and is_child_list_expr(an, a.value, f, conds):
-            owner, lst = owner_of_list(a.value, f)
+            out.append({"kind": "REBIND", "owner": NT(a.value), "list": a.attr, "ast": a, "value_ast": ev.get("value")})
+        elif k in ("store_sub", "del_sub") and child_list(a.value):
+            owner, lst = owner_of_list(X(a.value), f)
             if k == "store_sub":
-                out.append({"kind": "API_REPLACE", "owner": owner, "list": lst, "obj": norm_text(ev["value"]),
-                            "key": unparse(a.slice), "ast": a, "listexpr": a.value})
+                out.append({"kind": "API_REPLACE", "owner": owner, "list": lst, "obj": NT(ev["value"]),
+                            "key": unparse(a.slice), "ast": a, "listexpr": X(a.value)})
             else:
-                out.append({"kind": "DEL_RAW", "owner": owner, "list": lst, "obj": "%s[%s]" % (unparse(a.value), unparse(a.slice)),
-                            "ast": a, "listexpr": a.value, "how": "del"})
+                out.append({"kind": "DEL_RAW", "owner": owner, "list": lst, "obj": "%s[%s]" % (unparse(X(a.value)), unparse(a.slice)),
+                            "ast": a, "listexpr": X(a.value), "how": "del"})
         elif k == "aug_attr" and a.attr in CHILD_FIELDS + tuple(CHILD_GETTERS):
-            out.append({"kind": "ADD_RAW", "owner": norm_text(a.value), "list": CHILD_GETTERS.get(a.attr, a.attr), "obj": "?",
+            out.append({"kind": "ADD_RAW", "owner": NT(a.value), "list": CHILD_GETTERS.get(a.attr, a.attr), "obj": "?",
                         "ast": a, "how": "+="})
         elif k == "call" and isinstance(a.func, ast.Attribute):
             m = a.func.attr
@@ -75,28 +125,32 @@ def tree_events(an, f, node, conds=None):
             is_super = isinstance(recv, ast.Call) and call_name(recv) == "super"
             if in_smartlist and is_super and m in RAW_ADD + RAW_DEL + ("__setitem__",):
                 kind = "ADD_RAW" if m in RAW_ADD else "DEL_RAW" if m in RAW_DEL else "REPLACE_RAW"
-                obj = norm_text(a.args[-1]) if a.args else "?"
+                obj = NT(a.args[-1]) if a.args else "?"
                 d = {"kind": kind, "owner": "OWNER(%s)" % f.params[0], "list": "?", "obj": obj, "ast": a, "how": "super." + m,
-                     "obj_ast": a.args[-1] if a.args else None}
+                     "obj_ast": X(a.args[-1]) if a.args else None}
                 if kind == "REPLACE_RAW":
                     d["key"] = unparse(a.args[0])
                 out.append(d)
-            elif not is_super and is_child_list_expr(an, recv, f, conds) and m in RAW_ADD + RAW_DEL + ("sort", "reverse"):
-                owner, lst = owner_of_list(recv, f)
+            elif not is_super and child_list(recv) and m in RAW_ADD + RAW_DEL + ("sort", "reverse"):
+                owner, lst = owner_of_list(X(recv), f)
                 if m in ("sort", "reverse"):
                     continue
                 tgts = an.s.targets(a, f)
                 defined = any(hasattr(t, "qualname") for t in tgts)     # SmartList overrides it
+                if not tgts or all(not hasattr(t, "qualname") for t in tgts):
+                    # an alias of a child list: the method is SmartList's when SmartList defines it
+                    sl = an.p.classes.get("odml.base.SmartList")
+                    defined = sl is not None and m in sl.methods
                 kind = "ADD" if m in RAW_ADD else "DEL"
-                obj = norm_text(a.args[-1]) if a.args else "?"
+                obj = NT(a.args[-1]) if a.args else "?"
                 out.append({"kind": kind + ("_SL" if defined else "_RAW"), "owner": owner, "list": lst, "obj": obj, "ast": a,
-                            "listexpr": recv, "how": m, "obj_ast": a.args[-1] if a.args else None})
-            elif not is_super and m in ("append", "insert", "remove", "extend") and is_container_expr(an, recv, f, conds) \
-                    and not is_child_list_expr(an, recv, f, conds):
-                obj = norm_text(a.args[-1]) if a.args else "?"
+                            "listexpr": X(recv), "how": m, "obj_ast": X(a.args[-1]) if a.args else None})
+            elif not is_super and m in ("append", "insert", "remove", "extend") and is_container_expr(an, X(recv), f, conds) \
+                    and not child_list(recv):
+                obj = NT(a.args[-1]) if a.args else "?"
                 kind = {"append": "API_ADD", "insert": "API_ADD", "extend": "API_EXTEND", "remove": "API_DEL"}[m]
-                out.append({"kind": kind, "owner": norm_text(recv), "obj": obj, "ast": a, "how": m,
-                            "obj_ast": a.args[-1] if a.args else None})
+                out.append({"kind": kind, "owner": NT(recv), "obj": obj, "ast": a, "how": m,
+                            "obj_ast": X(a.args[-1]) if a.args else None})
     return out
 
 
